@@ -5,6 +5,7 @@ import (
 	"encoding/binary"
 	"fmt"
 	"reflect"
+	"sort"
 	"strings"
 
 	"github.com/brocaar/lorawan"
@@ -476,6 +477,7 @@ func c18Variants(v appPayload) []appPayload {
 
 func runC18(r *engine.Run) {
 	r.Rule = "E1 per payload type of the four application-layer packages (clock sync, multicast setup, fragmentation, firmware management; every CID x direction of the package registries): value -> bytes -> value over the complete product of all in-width field values when that product is <= 200 000 (fields of <= 8 bits, flags and 4-bit masks completely; wider integers over {0,1,max,0x55..,0xAA.., every single bit}; byte arrays over 3 fillers), otherwise per-field complete sweeps with the remaining fields at each of three base tuples; content-dependent shapes (McGroupStatusAns items, Mc*SessionAns TimeToStart, DataFragment payload lengths, DevUpgradeImageAns) by hand-written complete families; obligations: no panic, no refusal, len(bytes) = Size(), decode(encode(v)) = v, the same through the Command framing. Sequences: every sequence of <= 3 commands over the direction's command set x 2 canonical values each and <= 6 commands over a 4-command sub-alphabet, concatenated and decoded by Commands.UnmarshalBinary. Multicast keys: key(3) x McAddr (3 values + 32 single-bit walks) against the TS005 AES derivations. Non-trivial: a value that was encoded and compared after decoding."
+	r.Rule += historyRule + " Application-layer alphabet per package and direction: encode of every command (CIDs x 2 values), decode of its bytes, decode of the bytes without the last one (refused); all ordered pairs; multicast key derivations as calls of the multicastsetup alphabet."
 	r.Assume("field widths are those of the TS003/TS004/TS005/TS006 specifications (table in mc/props/c18.go); values outside the width are not in the property's scope")
 	r.Assume("a DataFragment command takes the rest of the payload by specification, so it only appears last in the enumerated sequences")
 
@@ -696,6 +698,57 @@ func runC18(r *engine.Run) {
 				}
 				checkSeq(c, pkg, up, seq)
 			})
+			// history oracle over the same alphabet: encode a command, decode its bytes, decode a
+			// truncated form (refused), each as one call; pairs of calls
+			var hops []HOp
+			for ai, mk := range alphabet {
+				mk := mk
+				one := mk()
+				wire, werr := pkg.marshal([]appCmd{one})
+				name := fmt.Sprintf("%02x#%d", one.CID, ai%2)
+				hops = append(hops, HOp{"encode(" + name + ")", func(HCtx) interface{} {
+					b, err := pkg.marshal([]appCmd{mk()})
+					return []interface{}{b, errS(err)}
+				}})
+				if werr != nil {
+					continue
+				}
+				hops = append(hops, HOp{"decode(" + name + ")", func(HCtx) interface{} {
+					back, err := pkg.unmarshal(up, append([]byte(nil), wire...))
+					problem := ""
+					if want := mk(); err != nil || len(back) != 1 || back[0].CID != want.CID || deepPrint(back[0].Payload) != deepPrint(want.Payload) {
+						problem = fmt.Sprintf("%x does not decode to the command it encodes (err %v)", wire, err)
+					}
+					return &hChecked{[]interface{}{back, errS(err)}, problem}
+				}})
+				if len(wire) > 1 {
+					hops = append(hops, HOp{"decode-truncated(" + name + ")", func(HCtx) interface{} {
+						back, err := pkg.unmarshal(up, append([]byte(nil), wire[:len(wire)-1]...))
+						return []interface{}{len(back), errS(err)}
+					}})
+				}
+			}
+			if pkg.name == "multicastsetup" && up {
+				for ki, key := range []lorawan.AES128Key{{1, 2, 3, 4, 5, 6, 7, 8, 9, 10, 11, 12, 13, 14, 15, 16}, {0xFF, 0xEE, 0xDD}} {
+					key := key
+					addr := lorawan.DevAddr{byte(ki + 1), 2, 3, 4}
+					for name, f := range map[string]func() (lorawan.AES128Key, error){
+						"GetMcRootKeyForGenAppKey": func() (lorawan.AES128Key, error) { return multicastsetup.GetMcRootKeyForGenAppKey(key) },
+						"GetMcRootKeyForAppKey":    func() (lorawan.AES128Key, error) { return multicastsetup.GetMcRootKeyForAppKey(key) },
+						"GetMcKEKey":               func() (lorawan.AES128Key, error) { return multicastsetup.GetMcKEKey(key) },
+						"GetMcAppSKey":             func() (lorawan.AES128Key, error) { return multicastsetup.GetMcAppSKey(key, addr) },
+						"GetMcNetSKey":             func() (lorawan.AES128Key, error) { return multicastsetup.GetMcNetSKey(key, addr) },
+					} {
+						f := f
+						hops = append(hops, HOp{fmt.Sprintf("%s(key%d)", name, ki), func(HCtx) interface{} {
+							k, err := f()
+							return []interface{}{k, errS(err)}
+						}})
+					}
+				}
+				sort.SliceStable(hops, func(i, j int) bool { return hops[i].Name < hops[j].Name }) // map order is not an index order
+			}
+			historyPart(r, fmt.Sprintf("history/%s/uplink=%v", pkg.name, up), hops, 2)
 			sub := alphabet
 			if len(sub) > 4 {
 				sub = []func() appCmd{alphabet[0], alphabet[3], alphabet[len(alphabet)/2], alphabet[len(alphabet)-1]}
